@@ -72,4 +72,6 @@ func checkC17(c *lib.Ctx) {
 		}
 	}
 	c.Compare("c17", lines, impl)
+	r.Exhaustive = true
+	checkC17Files(c)
 }
